@@ -61,7 +61,9 @@ def tables_fail(ctx, N):
 def poly_case(rng, tier):
     N = rng.randint(1, 4)
     terms = [(rng.randint(-3, 3), [rng.randint(0, 3) for _ in range(N)]) for _ in range(rng.randint(1, 4))]
-    return {'op': 'poly', 'N': N, 'terms': terms, 'x': [rng.randint(-3, 3) for _ in range(N)], 'v': [rng.randint(-2, 2) for _ in range(N)],
+    return {'op': 'poly', 'N': N, 'terms': terms, 'x': [rng.randint(-3, 3) for _ in range(N)],
+            'v': [rng.choice([rng.randint(-2, 2), rng.randint(-8, 8) / 4.0]) for _ in range(N)],
+            'xkind': rng.choice(['float', 'int-array', 'int-list']),
             'd': rng.randint(1, 3 if tier == 'quick' else 4)}
 
 
@@ -102,7 +104,8 @@ def poly_fails(case):
 
     def f(x):
         return peval(terms, [x[i] for i in range(N)]) + 0 * x[0]
-    x = np.array(xs, dtype=float)
+    xk = case.get('xkind', 'float')
+    x = np.array(xs, dtype=float) if xk == 'float' else (np.array(xs, dtype=int) if xk == 'int-array' else [int(a) for a in xs])
     v = np.array(case['v'], dtype=float)
     unit = lambda i: tuple(1 if j == i else 0 for j in range(N))
     g = np.array([float(exact_partial(terms, xs, unit(i))) for i in range(N)])
@@ -112,7 +115,7 @@ def poly_fails(case):
         Jv = UTPM.extract_jac_vec(f(UTPM.init_jac_vec(x, v)))
         Hh = UTPM.extract_hessian(N, f(UTPM.init_hessian(x)))
         Hv = UTPM.extract_hess_vec(N, f(UTPM.init_hess_vec(x, v)))
-        T = UTPM.extract_tensor(N, f(UTPM.init_tensor(d, x)), as_full_matrix=False)
+        T = UTPM.extract_tensor(N, f(UTPM.init_tensor(d, np.asarray(x, dtype=float))), as_full_matrix=False)
     except Exception as ex:
         return 'poly-exception: %s' % (type(ex).__name__ + ':' + str(ex)[:100])
     if not close(np.ravel(J), g, 1e-10):
